@@ -72,6 +72,19 @@ Theorem static_scalar_changes_are_faithful :
 Proof. exact Compose.static_scalar_changes_are_faithful. Qed.
 Print Assumptions static_scalar_changes_are_faithful.
 
+(* REFUTED without the interface hypothesis (listed finding F23): when the observe machinery delivers nothing
+   for a relevant change — which is what happens to a Property(observe=...) added with add_trait /
+   add_class_trait, whose observers are never installed — a cached property is stale and a listener hears
+   nothing.  Witness: world (value, _), f = 3*value + 1, read, change value 1 -> 4 with 0 deliveries, read. *)
+Theorem unhooked_property_refuted :
+  exists (ops : list (op (Z * Z))) ,
+    let f := fun w : Z * Z => 3 * fst w + 1 in
+    let '(tr, s) := run (Z * Z) f true (mkState (1, 0) None 1%nat) ops in
+    map (fun p => o_val (snd p)) tr = [Some 4; None; Some 4] /\ f (world s) = 13
+    /\ map (fun p => o_events (snd p)) tr = [[]; []; []].
+Proof. exists [Read; Mut (4, 0) true 0; Read]. vm_compute. repeat split; reflexivity. Qed.
+Print Assumptions unhooked_property_refuted.
+
 (* ---------- non-vacuity: a world of two numbers, the getter reads only the first ---------- *)
 Definition exW := (Z * Z)%type.
 Definition ex_f (w : exW) : Z := 3 * fst w + 1.
